@@ -312,11 +312,14 @@ Theorem queries_agree m s k b : fget s k = Some (BundleCell b) ->
       fstep m s (GetMetadata k) =
         (fpush s (MetaCell (eid_print (p_src (b_primary b))) (eid_print (p_dst (b_primary b)))
                            (p_time (b_primary b)) (p_seq (b_primary b)) (p_lifetime (b_primary b))),
-         RHandle (fresh s), 3%Z)).
+         RHandle (fresh s), 3%Z))
+  /\ (has_nul (eid_print (p_src (b_primary b))) || has_nul (eid_print (p_dst (b_primary b))) = true ->
+      fstep m s (GetMetadata k) = (s, RNull, 0%Z)).
 Proof.
   intros G. unfold fstep, fstep_v, alloc, same. rewrite G.
-  split; [reflexivity|]. split; [reflexivity|]. split.
+  split; [reflexivity|]. split; [reflexivity|]. split; [|split].
   - unfold to_cbor, fresh, fset. cbn [fst snd f_cells]. rewrite upd_nth_length. reflexivity.
+  - intros ->. reflexivity.
   - intros ->. reflexivity.
 Qed.
 
@@ -340,7 +343,7 @@ Proof.
   assert (Hvb : validate bb = []) by (rewrite Hbb, validate_calc; exact Hv).
   destruct (valid_gives_bundle m s h bs bb Hb Hd Hvb) as [F _].
   split; [rewrite F, Hbb, bundle_allocs_calc; reflexivity|].
-  intros s1 G. destruct (queries_agree m s1 k bb G) as (Q1 & Q2 & Q3 & _).
+  intros s1 G. destruct (queries_agree m s1 k bb G) as (Q1 & Q2 & Q3 & _ & _).
   split; [rewrite Q1; apply is_valid_true in Hvb; rewrite Hvb; reflexivity|].
   split; [rewrite Q2, Hbb, payload_calc; reflexivity|].
   split; [|exact Hc].
@@ -359,17 +362,21 @@ Definition new_default_ok (m : ovf_mode) (s : fstate) (src dst : list byte) (ph 
 Definition abort_cause (m : ovf_mode) (s : fstate) (c : fcall) : Prop :=
   match c with
   | NewDefault src dst _ ph clock_ms => new_default_ok m s src dst ph clock_ms = false   (* caller error *)
-  | GetMetadata h => exists b, fget s h = Some (BundleCell b) /\
-      has_nul (eid_print (p_src (b_primary b))) || has_nul (eid_print (p_dst (b_primary b))) = true
   | _ => False
   end.
 Theorem aborts_only m s c s' d : fstep m s c = (s', RAbort, d) -> abort_cause m s c.
 Proof.
   unfold fstep, fstep_v, alloc, release, same, abort_cause, new_default_ok. intros H.
   destruct c; destruct_matches H; inversion H; subst; clear H; try reflexivity.
-  - (* FromCbor: the decoder model has no Panic outcome on any input *)
-    match goal with E : from_cbor ?bs = Panic ?p |- _ => exact (decode_total bs p E) end.
-  - (* GetMetadata *) eexists; split; [reflexivity|assumption].
+  (* FromCbor: the decoder model has no Panic outcome on any input *)
+  match goal with E : from_cbor ?bs = Panic ?p |- _ => exact (decode_total bs p E) end.
+Qed.
+(* no exported function other than bundle_new_default can abort the process, whatever the heap and the arguments *)
+Corollary no_abort_outside_new_default m s c s' r d : fstep m s c = (s', r, d) ->
+  (forall src dst life ph clock, c <> NewDefault src dst life ph clock) -> r <> RAbort.
+Proof.
+  intros H Hn ->. pose proof (aborts_only _ _ _ _ _ H) as A. destruct c; cbn [abort_cause] in A; try exact A.
+  eapply Hn; reflexivity.
 Qed.
 Theorem new_default_returns m s src dst life ph clock : new_default_ok m s src dst ph clock = true ->
   exists b l, fstep m s (NewDefault src dst life ph clock) =
